@@ -6,6 +6,7 @@ import NmVerif.Index.Broadcast
 import NmVerif.Index.Pad
 import NmVerif.Index.Tile
 import NmVerif.Index.Roll
+import NmVerif.Index.CheckedOps
 namespace NmVerif.Driver.C15
 open NmVerif NmVerif.Proto NmVerif.Index
 
@@ -16,8 +17,40 @@ def reshapeChecked (src : Shape) (dst : List Int) : Option IxView :=
   (Checked.shapeReshape src dst).map (fun t =>
     ⟨src, t, fun d => some (computeIndices (computeOffset d (strides t)) src (strides src))⟩)
 
+/-- two operands (left filled `k`, right `k + 1000`) joined by an `IxView2` -/
+def fmtView2 (v : IxView2) : String :=
+  let d : List Int := (allIdx v.dst).map (fun d =>
+    match v.map d with
+    | some (false, i) => (computeOffset i (strides v.srcA) : Int)
+    | some (true, i) => (computeOffset i (strides v.srcB) : Int) + 1000
+    | none => -1)
+  s!"ok shape={fmtNats v.dst} data={fmtInts d}"
+
+def fmtOpt (v : Option IxView) : String := match v with | some v => fmtView v | none => "nothing"
+
 def handle : Handler := fun op a =>
   match op with
+  | "v_transpose" => orBad do
+      let s ← a.nats "shape"; let ax ← a.ints "axes"
+      pure (fmtOpt (Checked.transposeChecked s ax))
+  | "v_swapaxes" => orBad do
+      let s ← a.nats "shape"; let p ← a.int "a1"; let q ← a.int "a2"
+      pure (fmtOpt (Checked.swapaxesChecked s p q))
+  | "v_expand_dims" => orBad do
+      let s ← a.nats "shape"; let ax ← a.ints "axes"
+      pure (fmtOpt (Checked.expandDimsChecked s ax))
+  | "v_repeat" => orBad do
+      let s ← a.nats "shape"; let ax ← a.int "axis"
+      match a.get? "repeats" with
+      | some _ =>
+        let r ← a.nat "repeats"
+        pure (fmtOpt (Checked.repeatChecked s r ax))
+      | none =>
+        let rs ← a.nats "counts"
+        pure (fmtOpt (Checked.repeatListChecked s rs ax))
+  | "v_concatenate" => orBad do
+      let s ← a.nats "shape"; let s2 ← a.nats "shape2"; let ax ← a.int "axis"
+      pure (match Checked.concatenateChecked s s2 ax with | some v => fmtView2 v | none => "nothing")
   | "v_reshape" => orBad do
       let s ← a.nats "shape"; let t ← a.ints "to"
       pure (match reshapeChecked s t with | some v => fmtView v | none => "nothing")
